@@ -149,13 +149,29 @@ def run_fjv(prog_text, dbdir=None, env_extra=None, timeout=120, keep=False):
         env = dict(ENV)
         if env_extra:
             env.update(env_extra)
-        try:
-            p = subprocess.run([FJV, "run", pf, dbd], env=env, timeout=timeout,
-                               stdout=subprocess.PIPE, stderr=subprocess.PIPE, text=True, errors="replace")
-            out, rc = p.stdout, p.returncode
-        except subprocess.TimeoutExpired as e:
-            out = (e.stdout or b"").decode(errors="replace") if isinstance(e.stdout, bytes) else (e.stdout or "")
-            rc = -99
+        # PATIENT (set by pmap_confirm for the confirming re-run of a scenario that reported a problem): every time limit x5
+        patient = bool(PATIENT.get("on"))
+        if patient:
+            timeout = timeout * 5
+            if "FJV_SYNC_TIMEOUT_MS" in env:
+                env["FJV_SYNC_TIMEOUT_MS"] = str(int(env["FJV_SYNC_TIMEOUT_MS"]) * 5)
+        def once(env_, timeout_):
+            try:
+                p = subprocess.run([FJV, "run", pf, dbd], env=env_, timeout=timeout_,
+                                   stdout=subprocess.PIPE, stderr=subprocess.PIPE, text=True, errors="replace")
+                return p.stdout, p.returncode
+            except subprocess.TimeoutExpired as e:
+                o_ = (e.stdout or b"").decode(errors="replace") if isinstance(e.stdout, bytes) else (e.stdout or "")
+                return o_, -99
+        out, rc = once(env, timeout)
+        # a run that hit the process time limit, or an operation that hit the interpreter's default 30 s limit, on a fresh
+        # directory: the machine may simply be overloaded — run it once more with every limit x5 before anybody judges it
+        # (a genuine hang hits the larger limits as well).  Not done when the caller manages the directory or set its own limit.
+        if own and (rc == -99 or ("FJV_SYNC_TIMEOUT_MS" not in env and " err timeout" in out)) and not patient:
+            shutil.rmtree(dbd, ignore_errors=True)
+            env2 = dict(env)
+            env2.setdefault("FJV_SYNC_TIMEOUT_MS", "150000")
+            out, rc = once(env2, timeout * 5)
         return parse_obs(out), out, rc
     finally:
         if not keep:
@@ -299,6 +315,30 @@ class Report:
 def pmap(fn, items, workers=NPROC):
     with ThreadPoolExecutor(max_workers=workers) as ex:
         return list(ex.map(fn, items))
+
+
+PATIENT = {}
+
+
+def pmap_confirm(fn, items, isbad, workers=NPROC):
+    """pmap for timing-dependent scenarios (pause-point schedules, progress watchdogs, fault timing): a scenario that reports
+    a problem is run once more, alone and with every time limit x5; the problem counts only if it shows again.  A defect
+    fails both runs; a hiccup of an overloaded machine does not.  Returns (results, number of unconfirmed alarms)."""
+    items = list(items)
+    res = pmap(fn, items, workers=workers)
+    unconfirmed = 0
+    for i, r in enumerate(res):
+        if isbad(r):
+            PATIENT["on"] = True
+            try:
+                r2 = fn(items[i])
+            finally:
+                PATIENT.pop("on", None)
+            if not isbad(r2):
+                unconfirmed += 1
+                log("unconfirmed alarm (not reproduced with relaxed time limits): %s" % (str(r)[:300],))
+                res[i] = r2
+    return res, unconfirmed
 
 
 TRUSTED_BASE = [
